@@ -13,6 +13,7 @@ import sys
 import threading
 
 mon = sys.monitoring
+STALL_SECONDS = 120
 TOOL = mon.DEBUGGER_ID
 
 # instructions that can touch state shared between threads; everything else only moves values between the frame's
@@ -250,7 +251,12 @@ class Scheduler:
             th.start()
         first = self._decide(None)
         self.threads[first]['sem'].release()
-        self.ctrl.acquire()
+        # an execution takes milliseconds; a managed thread that blocks on something the scheduler does not own (a real lock
+        # added to the code under test) would otherwise stop the exploration for good
+        if not self.ctrl.acquire(timeout=STALL_SECONDS):
+            self.abort = True
+            raise RuntimeError(f'scheduler stalled for {STALL_SECONDS}s: a managed thread is blocked outside the scheduler '
+                               f'(a lock of the code under test that the harness does not substitute?)')
         if x.deadlock or self.abort or any(not st['done'] for st in self.threads.values()):
             self._kill()
         for t, st in self.threads.items():
